@@ -338,6 +338,18 @@ def replay_numeric(which):
                     continue  # the strong form of a symmetric operator is not symmetric: outside the cg clause ("symmetric positive definite A")
                 if info != 0 or e > 2000 * tol or cnt != len(res) or x.space != dp0:
                     bad["cg tol=%g" % tol] = e
+    if which in ("gmres", "cg", "all"):
+        # "the residual ... outputs correspond to the iteration that was run": after an early stop (maxiter=3) the last reported cg residual is the residual of the
+        # returned iterate in the system that was iterated on (weak: weak form / projections; strong: strong form / coefficients)
+        for strong in (False, True):
+            x, info, res, cnt = cg(V, V * f0, tol=1e-14, maxiter=3, use_strong_form=strong, return_residuals=True, return_iteration_count=True)
+            A_sys = V.strong_form() if strong else V.weak_form()
+            b_sys = (V * f0).coefficients if strong else (V * f0).projections(dp0)
+            true = float(np.linalg.norm(b_sys - A_sys @ x.coefficients))
+            key = "cg maxiter=3 strong=%s: last reported residual vs residual of the returned iterate" % strong
+            details[key] = abs(res[-1] - true) / true if len(res) else 1.0
+            if cnt != len(res) or cnt != 3 or not details[key] < 1e-8:
+                bad[key] = details[key]
     if which in ("gmres-blocked", "cg-blocked", "all"):
         # blocked systems: the requested tolerance must reach the scipy routine (true relative residual of the weak / strong system)
         B = api.BlockedOperator(2, 2)
